@@ -48,12 +48,22 @@ def main():
         first = r[4] if len(r) > 4 else ""
         first = re.sub(r"^property C\d\d fails on the implementation: ", "", first)
         out.append("| %s | %s | %s | %s | `%s` |" % (d, m.get("summary", "").replace("|", "/")[:260], r[2], r[3], first.replace("|", "/").replace("`", "'")[:150]))
-    out.append("\nAll 40 seeded changes make their property's quick check exit 1. 38 are reported with a concrete failing input on "
-               "the real (changed) code. Two - C09-1 and C14-1 - end in `no-failing-input-found`: the change breaks a Tie A "
-               "theorem and the correspondence (the code is no longer what the model describes), but on every explored input the "
-               "property's own oracle still holds on the changed code (C09-1 moves a threshold inside a gap where no value of the "
-               "vocabulary lies; C14-1 changes bar arithmetic that C13's check reports with a concrete input, while the track-level "
-               "statement of C14 is unaffected), so the report names the theorems that no longer check, as the brief prescribes.")
+    rows = [r for k, r in res.items() if os.path.exists(os.path.join(V, "seeded", k, "meta.json"))]
+    n_all = len(rows)
+    n_conc = len([r for r in rows if r[3] == "concrete input"])
+    nfi = sorted(r[0] for r in rows if r[3] == "no-failing-input-found")
+    missed = sorted(r[0] for r in rows if r[3] not in ("concrete input", "no-failing-input-found"))
+    out.append("\nThe seeds were written in three rounds (x-1/x-2, x-3/x-4, x-5/x-6), each round's authors being told what the earlier "
+               "rounds had changed. After every round the seeds a check missed, or reported without an input, were used to strengthen "
+               "that check's generators and oracle (never its verdict rule), and the whole sweep was repeated. On the last sweep "
+               "%d of %d seeded changes make their property's quick check exit 1; %d are reported with a concrete failing input on the "
+               "real (changed) code%s. %s end in `no-failing-input-found`: the change breaks a Tie A theorem and the correspondence "
+               "(the code is no longer what the model describes), but on every explored input the property's own oracle still holds "
+               "on the changed code (C09-1 moves a threshold inside a gap where no value of the vocabulary lies; C14-1 changes bar "
+               "arithmetic that C13's check reports with a concrete input, while the track-level statement of C14 is unaffected), so "
+               "the report names the theorems that no longer check, as the brief prescribes." % (
+                   n_all - len(missed), n_all, n_conc, "" if not missed else "; NOT detected: " + ", ".join(missed),
+                   ", ".join(nfi) if nfi else "None"))
     text = "\n".join(out) + "\n"
     p = os.path.join(V, "DESIGN.md")
     s = open(p).read()
